@@ -302,7 +302,7 @@ fn c05_schedule_reports_deadlock() {
 // C16: Execution::step resets every piece of per-iteration state;  S.newthread;  C19: Execution::new
 // ================================================================================================
 
-//@ props=C16,C14 tier=quick timeout=1500 fns=src/rt/execution.rs::Execution::step,src/rt/thread.rs::Set::clear,src/rt/object.rs::Store::clear,src/rt/lazy_static.rs::Set::reset,src/rt/execution.rs::Id::new bounded=threads:N=3,path:depth=1,objects:1,raw_allocations:empty,arc_objs:empty models=VersionVec::join=s_vv_models_agree
+//@ props=C16,C14 tier=thorough timeout=7000 weight=heavy fns=src/rt/execution.rs::Execution::step,src/rt/thread.rs::Set::clear,src/rt/object.rs::Store::clear,src/rt/lazy_static.rs::Set::reset,src/rt/execution.rs::Id::new bounded=threads:N=3,path:depth=1,objects:1,raw_allocations:empty,arc_objs:empty models=VersionVec::join=s_vv_models_agree
 #[kani::proof]
 #[kani::unwind(8)]
 #[kani::stub(std::hash::RandomState::new, crate::rt::thread::verif_kani::fixed_random_state)]
